@@ -182,7 +182,8 @@ class P(Property):
     extract_v = 'Extract/ExtractC14.v'
     driver_ml = 'C14_driver.ml'
     harness_bin = 'c14'
-    rule = ('wb: every public WriteBuf constructor (stream type, the four uni headers, the bidi header, every Frame variant that can be '
+    rule = ('si: Settings::insert sequences (capacity 8, repeated ids, ids/values >= 2^62) and the frame built from the accepted entries. '
+            'wb: every public WriteBuf constructor (stream type, the four uni headers, the bidi header, every Frame variant that can be '
             'built for sending, (StreamType, Frame) pairs) x identifiers at every varint form boundary x payloads of 0..16384+ bytes in '
             '0..4 chunks x consumption scripts mixing chunk-bounded reads of 1..9 bytes and raw advance(k); settings lists up to the '
             '8-entry maximum incl. ones that overflow the 64-byte header array. wr: API programs (server: scripted requests then '
@@ -303,13 +304,61 @@ class P(Property):
         for _ in range(60 if tier == 'quick' else 600):
             out.append('wb fr %s' % self._steps(rng, 8, 4, True))
             out.append('wb p:%d:fr %s' % (rng.choice(ids), self._steps(rng, 9, 4, True)))
-        # breaking the caller's side of the Buf contract: advance past the end
+        # breaking the caller's side of the Buf contract: advance past the end, copy_to_bytes of more than remaining()
         for c in ('fg:4', 'fd:aabb', 'fh:00', 'st:0', 'fd:-', 'fr', 'p:33:fd:aa.bb'):
             out.append('wbx %s a100' % c)
             out.append('wbx %s c1,a100' % c)
+            out.append('wbx %s b100' % c)
+            out.append('wbx %s c1,b100' % c)
+        # StreamType::from_value takes any u64: one that has no varint encoding panics in write_var (model: put_var), nothing is built
+        for x in (M62, M62 + 1, 2 ** 63, 2 ** 64 - 1):
+            for c in ('st:%d', 'p:%d:fd:aa', 'p:%d:fg:4', 'p:%d:fr', 'p:%d:fh:-'):
+                out.append('wbx %s %s' % (c % x, rng.choice(['-', 'c1', 'a1,c1'])))
+        out.append('wbx fd:aabb b4,b1')
+        out.append('wbx fd:aabb.cc b3,b3')
+        out.append('wbx ue b1,b1')
+        # reads of an exhausted buffer: chunk() is empty, chunks_vectored() fills no slice, remaining() stays 0
+        drain = 'c64,c99999,c99999,c99999,c99999'
+        for c in ('st:0', 'st:%d' % (M62 - 1), 'ue', 'ud', 'uc:-', 'uc:6=1000;33=0', 'uw:4', 'bw:0', 'fc:7', 'fg:%d' % (M62 - 1), 'fm:0',
+                  'fs:-', 'fs:1=2;6=3', 'fw:4', 'fd:-', 'fd:aa', 'fd:aa.bbcc.dd.ee', 'fh:-', 'fh:0000d1', 'p:0:fg:4', 'p:33:fd:-',
+                  'p:84:fd:aa.bb', 'p:%d:fh:-' % (M62 - 1)):
+            for tail in ('c1', 'v1', 'b0', 'a0', 'c3,v2,b0,a0,c1', 'v9,v9'):
+                out.append('wb %s %s,%s' % (c, drain, tail))
+        for c in ('fd:-', 'fh:-', 'p:33:fd:-', 'p:64:fh:-'):     # the payload is there but empty: header consumed, then look again
+            hl = 2 + (vsize(int(c.split(':')[1])) if c[0] == 'p' else 0)
+            for tail in ('c1', 'v1', 'b0', 'c1,v1,c1'):
+                out.append('wb %s c%d,%s' % (c, hl, tail))
+                out.append('wb %s a%d,%s' % (c, hl, tail))
+        for _ in range(40 if tier == 'quick' else 1000):
+            n = rng.choice([0, 0, 1, 3, 70])
+            k = rng.choice(['fd:' + self._chunks(rng, n), 'fh:' + (rb(rng, n).hex() or '-'), 'fg:%d' % rng.choice(ids), 'st:%d' % rng.choice(ids),
+                            'uc:' + self._ent_str(self._entries(rng, rng.randint(0, 3)))])
+            tail = ','.join(rng.choice(['c%d' % rng.randint(1, 9), 'v%d' % rng.randint(1, 9), 'b0', 'a0']) for _ in range(rng.randint(1, 4)))
+            out.append('wb %s %s,%s' % (k, drain, tail))
+        # Frame::PushPromise: never built by h3 for sending (private fields, no push support), but anyone can get one out of the public
+        # Frame::decode and hand it to WriteBuf::from.  Model and code agree on what then happens (the field section goes out twice
+        # behind a length that counts it once, C14_push_promise_observation; the 64-byte header array overflows from ~58 bytes on):
+        # model transcript only (wbx), the RFC encoding is not what either produces
+        pp_lens = list(range(0, 8)) + [20, 55, 56, 57, 58, 59, 60, 61, 62, 63, 64, 65, 100, 300]
+        pp_ids = [0, 1, 63, 64, 16383, 16384, 2 ** 30 - 1, 2 ** 30, M62 - 1]
+        for n in pp_lens:
+            for x in (pp_ids if n < 8 or tier != 'quick' else [0, 64, 2 ** 30, M62 - 1]):
+                e = rb(rng, n).hex() or '-'
+                total = 1 + vsize(vsize(x) + n) + vsize(x) + 2 * n
+                out.append('wbx fp:%d:%s %s' % (x, e, self._steps(rng, total, 8)))
+        for _ in range(60 if tier == 'quick' else 3000):
+            n = rng.choice([0, 1, 2, 5, 17, 40, rng.randint(0, 70)])
+            x = rng.choice(pp_ids + [rng.getrandbits(rng.choice([6, 14, 30, 62]))])
+            e = rb(rng, n).hex() or '-'
+            ty = rng.choice(ids)
+            total = 1 + vsize(vsize(x) + n) + vsize(x) + 2 * n
+            out.append('wbx p:%d:fp:%d:%s %s' % (ty, x, e, self._steps(rng, vsize(ty) + total, 8)))
+            out.append('wbx fp:%d:%s %s,%s' % (x, e, drain, rng.choice(['c1', 'v1', 'b0', 'b1', 'a0', 'a1'])))
         return out
 
     CFG_M = [0, 1, 63, 64, 166, 167, 16383, 16384, 2 ** 30 - 1, 2 ** 30, M62 - 1]
+    # u64 values the builder accepts but SETTINGS cannot carry: building the connection fails (H3_INTERNAL_ERROR) before a byte is written
+    CFG_TOO_BIG = [M62, M62 + 1, 2 ** 63, 2 ** 64 - 1]
 
     def _cfg(self, rng, role):
         r = rng.random()
@@ -326,9 +375,11 @@ class P(Property):
     def _cfg_full(self, rng, role):
         g = rng.choice([0, 1, 1])
         m = rng.choice(self.CFG_M + [M62 - 1] * 6 + [1000] * 4)
+        if rng.random() < 0.01:
+            m = rng.choice(self.CFG_TOO_BIG)
         s = 'g%d.m%d.x%d.d%d' % (g, m, rng.randint(0, 1), rng.randint(0, 1))
         if role == 's':
-            s += '.w%d.n%d' % (rng.randint(0, 1), rng.choice([0, 1, 63, 64, 16384, 2 ** 30, M62 - 1]))
+            s += '.w%d.n%d' % (rng.randint(0, 1), rng.choice([0, 1, 63, 64, 16384, 2 ** 30, M62 - 1] + (self.CFG_TOO_BIG if rng.random() < 0.01 else [])))
         return s
 
     def _data(self, rng):
@@ -374,13 +425,17 @@ class P(Property):
             return self._peer_settings(rng)
         # not allowed on a control stream / malformed
         return rng.choice(['0001aa', '0100', '050100', '0200', '0600', '0800', '0900', '07020001', '0700', '0d00', '0302ffff',
-                           fr(4, vi(2) + vi(0)), fr(4, vi(6) + vi(1000) + vi(6) + vi(1000)), '040106'])
+                           fr(4, vi(2) + vi(0)), fr(4, vi(6) + vi(1000) + vi(6) + vi(1000)), '040106',
+                           # SETTINGS payloads that stop inside an identifier / inside the value of a later pair
+                           '040140', '040180', '0403060140', '04040601c000', '0403063380'])
 
     def _peer_open(self, rng, role):
         r = rng.random()
         if r < 0.4:
             return 'peer'
-        st = rng.choice([self._peer_settings(rng)] * 8 + [fr(4, vi(3) + vi(1)), '0700' + '00', fr(7, vi(0))])
+        # first frame: SETTINGS; or one h3 must refuse there (H2 setting, GOAWAY / MAX_PUSH_ID / CANCEL_PUSH before SETTINGS, truncated SETTINGS)
+        st = rng.choice([self._peer_settings(rng)] * 10 + [fr(4, vi(3) + vi(1)), '0700' + '00', fr(7, vi(0)), fr(13, vi(rng.choice([0, 5, M62 - 1]))),
+                                                           fr(3, vi(rng.choice([0, 64]))), '040140', '0403060140', '0d00', '0302ffff'])
         more = ''.join(self._peer_frame(rng, role) for _ in range(rng.choice([0, 0, 0, 1, 2])))
         return 'peer:00' + st + more
 
@@ -487,7 +542,9 @@ class P(Property):
               'peer,acc:badqpack:F,acc,shutdown:0', 'acc:data1st:F,poll,shutdown:2',
               'peer,pframe:0d0105,pframe:0d0106,pframe:030100,poll', 'peer:0004000d01052100,pframe:2100,pframe:0d0100',
               'acc,resp:200,peer:0004020623,trailers,resp:200,finish', 'puni:02,puni:03,puni:21aa,peer,puni:00,acc,shutdown:0',
-              'acc,cstop:5,shutdown:0,acc,shutdown:0', 'acc,resp:200,zfin:3,finish,xu,data:aa,shutdown:0,acc'],
+              'acc,cstop:5,shutdown:0,acc,shutdown:0', 'acc,resp:200,zfin:3,finish,xu,data:aa,shutdown:0,acc',
+              'peer:000d0105,acc,shutdown:0', 'peer:00030100,pframe:0400,acc,resp:200,finish', 'peer:00040140,acc,shutdown:0',
+              'peer:000403060140,poll,acc', 'peer,pframe:040140,acc,shutdown:0'],
         'c': ['-', 'peer', 'req:GET,finish', 'peer,req:POST,data:6869,finish', 'req:GET,data:-,data:01,trailers,finish',
               'req:GET,finish,req:GET,finish', 'peer,req:PUT,data:0102.0304.05,trailers,finish,shutdown:0', 'shutdown:0,req:GET',
               'req:GET,req:GET,sel:0,data:aa,sel:1,data:bb,finish,sel:0,finish', 'req:GET,finish,finish,data:aa', 'shutdown:0,shutdown:0',
@@ -495,7 +552,9 @@ class P(Property):
               'peer,req:GET,pframe:0d0105,req:GET,finish', 'peer,pframe:2100,pframe:070100,pframe:070100,req:GET',
               'peer:0004030643e8,req:POST,sstop:3,data:aa,finish', 'peer,pframe:0400,req:GET,finish,shutdown:0',
               'peer,pframe:2100,pframe:2100,poll', 'peer:0004030640a6,req:GET,req:POST,finish', 'req:GET,peer:0004020623,trailers,finish',
-              'cstop:0,req:GET,shutdown:0,req:GET,finish', 'req:GET,xu,data:aa,finish,req:GET,shutdown:0', 'puni:03,puni:03,req:GET'],
+              'cstop:0,req:GET,shutdown:0,req:GET,finish', 'req:GET,xu,data:aa,finish,req:GET,shutdown:0', 'puni:03,puni:03,req:GET',
+              'peer:000d0105,req:GET,finish', 'peer:00030100,poll,req:GET,shutdown:0', 'peer:00040140,req:GET,finish',
+              'peer,pframe:0403060140,req:GET,poll', 'poll,req:GET,poll,finish,poll'],
     }
 
     def wr_cases(self, tier, rng):
@@ -514,6 +573,18 @@ class P(Property):
                     for q in qs:
                         for b in bs:
                             out.append('wr %s %s %d:%d %s' % (role, cfg, b, q, prog))
+        # configurations without a SETTINGS encoding, alone and together, every role / constructor path / budget kind
+        for role in ('s', 'c'):
+            for big in self.CFG_TOO_BIG:
+                if role == 's':
+                    cfgs = ['m%d' % big, 'g1.m%d.x0.d0.w1.n0' % big, 'g0.m%d.x1.d1.w1.n64' % big,
+                            'n%d' % big, 'g1.m1000.x0.d0.w1.n%d' % big, 'g0.m%d.x0.d0.w0.n%d' % (big, big), 'w0.n%d' % big]
+                else:
+                    cfgs = ['m%d' % big, 'g1.m%d.x0.d0' % big, 'g0.m%d.x1.d1' % big]
+                for cfg in cfgs:
+                    for prog in ('-', self.SHORT[role][3], 'peer,shutdown:0,poll'):
+                        for budget in ('-', '0:1'):
+                            out.append('wr %s %s %s %s' % (role, cfg, budget, prog))
         n = 2500 if tier == 'quick' else 100000
         for _ in range(n):
             role = rng.choice(['s', 's', 'c'])
@@ -523,12 +594,38 @@ class P(Property):
                 out.append('wr %s %s %s %s' % (role, cfg, self._budget(rng), prog))
         return out
 
+    def si_cases(self, tier, rng):
+        """Settings::insert: the 8-entry capacity, repeated identifiers, identifiers / values without a varint encoding"""
+        out = ['si -', 'si 6=1', 'si 6=1;6=1', 'si 6=1;6=2;1=0', 'si 0=0;2=0;3=0;4=0;5=0',
+               'si %d=0' % M62, 'si 6=%d' % M62, 'si %d=%d' % (2 ** 64 - 1, 2 ** 64 - 1), 'si %d=%d;33=0' % (M62 - 1, M62 - 1),
+               'si ' + ';'.join('%d=%d' % (i, i) for i in range(1, 9)), 'si ' + ';'.join('%d=%d' % (i, i) for i in range(1, 10)),
+               'si ' + ';'.join('%d=0' % i for i in range(1, 12)), 'si 1=1;1=2;' + ';'.join('%d=0' % i for i in range(2, 10)),
+               # 8 accepted entries of 16 bytes: the frame no longer fits the 64-byte header array
+               'si ' + ';'.join('%d=%d' % (2 ** 30 + i, 2 ** 30) for i in range(8)),
+               'si ' + ';'.join('%d=%d' % (2 ** 30 + i, 2 ** 30) for i in range(3)) + ';1=1;2=2;1073741824=5;%d=1;7=7;8=8;9=9' % M62]
+        for _ in range(300 if tier == 'quick' else 20000):
+            es = []
+            for _ in range(rng.choice([1, 2, 3, 5, 7, 8, 9, 10, 12])):
+                r = rng.random()
+                if es and r < 0.2:
+                    i = rng.choice(es)[0]       # a repeated identifier
+                elif r < 0.3:
+                    i = rng.choice(self.CFG_TOO_BIG + [M62 - 1])
+                else:
+                    i = rng.choice(KNOWN_SETTINGS + [0, 2, 33, rng.randint(0, 63), rng.getrandbits(rng.choice([6, 14, 30, 62])), 31 * rng.randrange(GREASE_RANGE) + 33])
+                v = rng.choice([0, 1, 63, 64, 16384, M62 - 1, rng.getrandbits(rng.choice([6, 14, 30]))] + (self.CFG_TOO_BIG if rng.random() < 0.15 else []))
+                es.append((i, v))
+            out.append('si ' + self._ent_str(es))
+        return out
+
     def cases(self, tier, rng):
-        return self.wb_cases(tier, rng) + self.wr_cases(tier, rng)
+        return self.wb_cases(tier, rng) + self.si_cases(tier, rng) + self.wr_cases(tier, rng)
 
     # ------------------------------------------------------------ comparison
     def canon(self, case, out):
         w = case.split()
+        if w[0] == 'si':
+            return 'ok %s panic' % out.split()[1] if (out.startswith('ok ') and 'panic' in out.split()[2:]) else out
         if w[0] in ('wb', 'wbx'):
             ctor = w[1]
             if ctor == 'fr' or ctor.endswith(':fr'):
@@ -541,6 +638,9 @@ class P(Property):
                 return 'panic'
             return out
         if w[0] == 'wr':
+            if out.startswith('build-err'):
+                # the connection was not built: the model says nothing is on the wire; any byte (or FIN) h3 produced stays visible
+                return ' '.join(['build-err'] + sorted(t for t in out.split()[1:] if not t.endswith('=-')))
             ps = parse_streams(out)
             if ps is None:
                 return out.split()[0] if out.split() else out
@@ -577,6 +677,10 @@ class P(Property):
         return out
 
     def _judge(self, case, out):
+        if out.startswith('build-err'):
+            # whatever was written before the failure is judged like any other log; a stream h3 opened without ever writing or
+            # finishing it is not on the wire at all
+            out = ' '.join(['ok'] + [t for t in out.split()[1:] if not t.endswith('=-')])
         ps = parse_streams(out)
         if ps is None:
             return False
@@ -594,7 +698,7 @@ class P(Property):
 
     def spec_ok(self, case, out, spec):
         w = case.split()
-        if w[0] == 'wbx' or spec is None:
+        if w[0] in ('wbx', 'si') or spec is None:
             return True
         if w[0] == 'wb':
             if spec == 'panic':
@@ -645,6 +749,8 @@ class P(Property):
         w = case.split()
         if w[0] in ('wb', 'wbx'):
             return case if (w[2] != '-' or w[1][:2] in ('fd', 'fh', 'p:')) else None
+        if w[0] == 'si':
+            return case if w[1] != '-' else None
         ps = parse_streams(impl_out)
         if ps is None:
             return None
